@@ -41,6 +41,8 @@ def op_to_labels(op):
         return "[LBadMethod %s %s]" % (c, f[2])
     if k == "HB":
         return "[LHeartbeat %s %s]" % (c, f[2])
+    if k == "IDLE":
+        return "[LSocketLoss %s]" % c if f[2] == "1" else "[]"
     if k == "STARTOK":
         return "[LMethod %s 0 (MStartOk %s)]" % (c, cb(f[2]))
     if k == "TUNEOK":
